@@ -98,6 +98,12 @@ func runReplay(c *vh.Ctx, m *vh.Model, file string) {
 			partCrashScan(c, ch, 0)
 		}
 	}
+	// a mining run: mined again with the worker of the tree under test, from the recorded height with the
+	// recorded possible uncles
+	if f, ok := rp["mining_run_start"].(float64); ok && rp["possible_uncles_rlp"] != nil {
+		partMiningRun(c, m, ch, 0, int(f), 3, true, decodeBlocks(c, spec, rp["possible_uncles_rlp"]))
+		return
+	}
 	// offending block(s): offered on their parent to a fresh node (cold copy, mirrored with the same
 	// objects, and once more after a pass through a transaction pool)
 	for _, key := range []string{"corrupted_block_rlp", "built_block_rlp", "block_rlp", "blocks_rlp"} {
